@@ -181,6 +181,43 @@ def run(prog, R):
                     R.ob("C12.2-span-provenance", "aggregate:" + inventory.ishort(k), k in ctor or k.startswith("<oq3_syntax::syntax_error::SyntaxError as"), s_["at"], "SyntaxError value built here")
     else:
         R.ob("ANCHOR", "SyntaxError", False)
+    # a parser error reported "at an offset" carries the empty range at that offset (start == end == offset): every
+    # position of the text, including its end, is then a valid range on a character boundary; a non-empty range
+    # made from an offset alone can reach past the end of the text or into the middle of a character
+    nao = prog.body("oq3_syntax::syntax_error::SyntaxError::new_at_offset")
+    if nao is None:
+        R.ob("ANCHOR", "oq3_syntax::syntax_error::SyntaxError::new_at_offset", False)
+    else:
+        rs_ = [deep_strip(p_.env.get(0)) for p_ in SymExec(prog, nao).paths() if "__diverged__" not in p_.env]
+        def _empty_at(r_):
+            if not (isinstance(r_, tuple) and r_[0] == "adt" and len(r_[2]) >= 2):
+                return False
+            rg = deep_strip(r_[2][1])
+            if isinstance(rg, tuple) and rg[0] == "call" and rg[1].endswith("TextRange::empty") and deep_strip(rg[2][0])[0] == "arg":
+                return True
+            if isinstance(rg, tuple) and rg[0] == "call" and rg[1].endswith("TextRange::new") and deep_strip(rg[2][0]) == deep_strip(rg[2][1]):
+                return True
+            return False
+        oka = bool(rs_) and all(_empty_at(r_) for r_ in rs_)
+        R.ob("C12.2-span-provenance", "new_at_offset: the empty range at the offset", oka, nao.at, f"{[show(r_)[:90] for r_ in rs_][:2]}" if oka else
+             f"SyntaxError::new_at_offset builds {[show(r_)[:90] for r_ in rs_][:2]}: not the empty range at the offset; an error at the end of the text (or in front of a multi-byte character) gets a range that leaves the text or splits a character")
+    # ... and that is how the tree builder records a parser error: SyntaxTreeBuilder::error(msg, pos) pushes
+    # new_at_offset(msg, pos) (a range derived from anything else - a token length taken elsewhere - has to be shown to
+    # stay inside the text and on character boundaries)
+    ste = prog.body("oq3_syntax::syntax_node::SyntaxTreeBuilder::error")
+    if ste is None:
+        R.ob("ANCHOR", "oq3_syntax::syntax_node::SyntaxTreeBuilder::error", False)
+    else:
+        made = set()
+        for p_ in SymExec(prog, ste, max_paths=500).paths():
+            if "__diverged__" in p_.env:
+                continue
+            for c_ in p_.calls:
+                if "syntax_error::SyntaxError::" in c_[0]:
+                    made.add((c_[0].split("::")[-1], tuple(show(deep_strip(a_))[:40] for a_ in c_[1])))
+        okb = bool(made) and all(nm == "new_at_offset" and len(as_) == 2 and as_[1] in ("text_pos", "pos", "offset") or (nm == "new_at_offset" and len(as_) == 2 and "arg" not in as_[1] and "(" not in as_[1]) for nm, as_ in made)
+        R.ob("C12.2-span-provenance", "SyntaxTreeBuilder::error records new_at_offset(msg, pos)", okb, ste.at, f"{sorted(made)}" if okb else
+             f"the tree builder records a parser error as {sorted(made)}: not the empty range at the reported offset")
     R.premises(prog, "C12.3-per-file-premise", ["C18:C18.2-per-file-error-lists"], "a semantic diagnostic's range refers to the file its list is labelled with: each included file gets a list of its own, created with that file's path, swapped in for exactly the analysis of that file (C18.2)")
     R.premises(prog, "C12.2-token-offsets-premise", ["C14:C14.4-", "C14:C14.0-text-identity"], "ranges handed out by LexedStr / the tree are offsets into the given text only if the token table partitions exactly that text (no bytes skipped without a token)")
     # a semantic diagnostic reports the range of the node it was recorded on: SemanticError::range() is node.text_range()
